@@ -1348,6 +1348,132 @@ def basefit_targets():
     return out
 
 
+def stmle_targets():
+    """StochasticTMLE: the clever covariate (numerator under a marginal plan, the overwrite loop of a conditional plan, the
+    denominator of exposure_model), the two variance estimators, and in fit the standard error, the critical value and the limits."""
+    TM = os.path.join(REPO, 'zepid/causal/doublyrobust/TMLE.py')
+    tree = ast.parse(open(TM).read())
+    fit = find_function(tree, 'StochasticTMLE.fit')
+    out = []
+
+    def assign(fn, target, n=1):
+        hits = [st for st in ast.walk(fn) if isinstance(st, ast.Assign) and ast.unparse(st.targets[0]) == target]
+        if len(hits) != n:
+            raise TranslateError('StochasticTMLE: expected %d assignment(s) to %s, found %d' % (n, target, len(hits)))
+        return hits
+
+    A = 'self.df[self.exposure] == 1'
+
+    def arith(node, names, a_tests):
+        u = ast.unparse(node)
+        if u in names:
+            return names[u]
+        if isinstance(node, ast.Constant) and isinstance(node.value, int) and not isinstance(node.value, bool):
+            return '(%d # 1)' % node.value
+        if isinstance(node, ast.BinOp) and type(node.op) in (ast.Add, ast.Sub, ast.Mult, ast.Div):
+            op = {ast.Add: '+', ast.Sub: '-', ast.Mult: '*', ast.Div: '/'}[type(node.op)]
+            return '(%s %s %s)' % (arith(node.left, names, a_tests), op, arith(node.right, names, a_tests))
+        if isinstance(node, ast.Call) and ast.unparse(node.func) == 'np.where' and len(node.args) == 3 and ast.unparse(node.args[0]) in a_tests:
+            return '(if v_a then %s else %s)' % (arith(node.args[1], names, a_tests), arith(node.args[2], names, a_tests))
+        raise TranslateError('expression `%s` in StochasticTMLE' % u[:70])
+
+    # ---- clever covariate
+    tops = [st for st in fit.body if isinstance(st, ast.If) and ast.unparse(st.test) == 'conditional is None'
+            and any(isinstance(b, ast.Assign) and ast.unparse(b.targets[0]) == 'numerator' for b in st.body)]
+    if len(tops) != 1 or len(tops[0].body) != 1:
+        raise TranslateError('StochasticTMLE.fit: clever-covariate block')
+    num_m = arith(tops[0].body[0].value, {'p': 'v_p'}, (A,))
+    ob = tops[0].orelse
+    kinds = [ast.unparse(x)[:60] for x in ob]
+    loop = [x for x in ob if isinstance(x, ast.For)]
+    starts = [x for x in ob if isinstance(x, ast.Assign) and ast.unparse(x.targets[0]) == 'numerator']
+    if not (len(loop) == 1 and len(starts) == 1 and 'np.nan' in ast.unparse(starts[0].value)
+            and ast.unparse(loop[0].iter) == 'zip(conditional, p)' and ast.unparse(loop[0].target) in ('c, prop', '(c, prop)')
+            and len(loop[0].body) == 1 and ob.index(starts[0]) < ob.index(loop[0])):
+        raise TranslateError('StochasticTMLE.fit: conditional clever-covariate block is %s' % kinds)
+    st = loop[0].body[0]
+    v = st.value
+    if not (isinstance(st, ast.Assign) and ast.unparse(st.targets[0]) == 'numerator' and isinstance(v, ast.Call)
+            and ast.unparse(v.func) == 'np.where' and len(v.args) == 3 and ast.unparse(v.args[0]) == 'eval(c)'
+            and ast.unparse(v.args[2]) == 'numerator'):
+        raise TranslateError('StochasticTMLE.fit: loop body `%s`' % ast.unparse(st)[:80])
+    step = arith(v.args[1], {'prop': '(snd cp)'}, (A, 'df[self.exposure] == 1'))
+    haw = assign(fit, 'haw')[0]
+    if ast.unparse(haw.value) != 'np.array(numerator / self._denominator_).astype(float)':
+        raise TranslateError('StochasticTMLE.fit: haw is `%s`' % ast.unparse(haw.value))
+    em = find_function(tree, 'StochasticTMLE.exposure_model')
+    den = assign(em, 'self._denominator_')[0]
+    den_t = arith(den.value, {'pred': 'v_pd'}, (A,))
+    out.append(RawTarget('stmle_haw', 'Definition stmle_numer_marginal_Q (v_a : bool) (v_p : Q) : Q :=\n  %s.\n'
+                         '(* one pass of `for c, prop in zip(conditional, p)`; the array starts as NaN (None) *)\n'
+                         'Definition stmle_numer_step_Q (v_a : bool) (cur : option Q) (cp : bool * Q) : option Q :=\n'
+                         '  if fst cp then Some %s else cur.\n'
+                         'Definition stmle_denominator_Q (v_a : bool) (v_pd : Q) : Q :=\n  %s.\n'
+                         'Definition stmle_haw_Q (v_numerator v_denominator : Q) : Q :=\n  (v_numerator / v_denominator).'
+                         % (num_m, step, den_t), ['a', 'p', 'pd'], ['haw']))
+    # ---- variance estimators
+    for fname, tag, params in (('est_marginal_variance', 'marginal', ['haw', 'y_obs', 'y_pred', 'y_pred_targeted', 'psi']),
+                               ('est_conditional_variance', 'conditional', ['haw', 'y_obs', 'y_pred'])):
+        fn = find_function(tree, 'StochasticTMLE.' + fname)
+        if [a.arg for a in fn.args.args] != params:
+            raise TranslateError('StochasticTMLE.%s: parameters %s' % (fname, [a.arg for a in fn.args.args]))
+        body = [x for x in fn.body if not (isinstance(x, ast.Expr) and isinstance(x.value, ast.Constant))]
+        if [ast.unparse(x)[:30] for x in body[1:]] != ['var_est = np.mean(doqg_psi_sq)', 'return var_est'] \
+                or not (isinstance(body[0], ast.Assign) and ast.unparse(body[0].targets[0]) == 'doqg_psi_sq'):
+            raise TranslateError('StochasticTMLE.%s: body' % fname)
+        tr = FnTranslator('stmle_%s_term' % tag, params)
+        term = emit(tr.expr(body[0].value), 'Q')
+        for nm, fld in (('y_pred_targeted', 'z_qs r'), ('y_pred', 'z_q r'), ('y_obs', 'z_y r'), ('haw', 'z_h r')):
+            term = term.replace('v_' + nm, '(%s)' % fld)
+        out.append(RawTarget('stmle_var_' + tag, '(* rows: (haw, y, initial prediction, mean targeted prediction under the plan) *)\n'
+                             'Definition stmle_%s_variance_Q (rows : list zrow) (v_psi : Q) : Q :=\n'
+                             '  Qsum (fun r => %s) rows / Qlen rows.' % (tag, term), ['rows', 'psi'], ['variance']))
+    # ---- fit: how the estimators are called, standard error, limits
+    for fname, tag, want in (('est_marginal_variance', 'marginal', {'haw': 'haw', 'y_obs': 'y_', 'y_pred': 'yq0_',
+                                                                     'y_pred_targeted': 'np.mean(yqstar_, axis=0)', 'psi': 'self.marginal_outcome'}),
+                             ('est_conditional_variance', 'conditional', {'haw': 'haw', 'y_obs': 'y_', 'y_pred': 'yq0_'})):
+        calls = [n for n in ast.walk(fit) if isinstance(n, ast.Call) and ast.unparse(n.func) == 'self.' + fname]
+        if len(calls) != 1 or calls[0].args or {k.arg: ast.unparse(k.value) for k in calls[0].keywords} != want:
+            raise TranslateError('StochasticTMLE.fit: call of %s' % fname)
+        if ast.unparse(assign(fit, 'variance_' + tag)[0].value) != ast.unparse(calls[0]):
+            raise TranslateError('StochasticTMLE.fit: variance_%s' % tag)
+    if ast.unparse(assign(fit, 'self.marginal_outcome', 1)[0].value) != 'np.mean(self.marginals_vector)':
+        raise TranslateError('StochasticTMLE.fit: marginal_outcome')
+
+    class SelfAttr(ast.NodeTransformer):
+        def visit_Attribute(self, n):
+            if isinstance(n.value, ast.Name) and n.value.id == 'self':
+                return ast.copy_location(ast.Name(id=n.attr.lstrip('_'), ctx=ast.Load()), n)
+            return self.generic_visit(n)
+
+    def subst(e, name, by):
+        if e[0] == 'var' and e[1] == name:
+            return by
+        return tuple(subst(x, name, by) if isinstance(x, tuple) else x for x in e)
+    rtxt = []
+    z = assign(fit, 'zalpha')[0].value
+    for tag in ('marginal', 'conditional'):
+        tr = FnTranslator('stmle_ci_' + tag, ['alpha', 'est', 'variance', 'n'])
+        tr.defined |= {'zalpha', 'marginal_outcome', tag + '_se', 'variance_' + tag}
+        ze = tr.expr(SelfAttr().visit(ast.parse(ast.unparse(z), mode='eval').body))
+        se_src = ast.unparse(assign(fit, 'self.%s_se' % tag)[0].value).replace('self.df.shape[0]', 'n')
+        se = tr.expr(SelfAttr().visit(ast.parse(se_src, mode='eval').body))
+        se = subst(se, 'variance_' + tag, ('var', 'variance'))
+        ci = assign(fit, 'self.%s_ci' % tag)[0].value
+        if not isinstance(ci, (ast.List, ast.Tuple)) or len(ci.elts) != 2:
+            raise TranslateError('StochasticTMLE.fit: %s_ci' % tag)
+        lims = []
+        for e in ci.elts:
+            x = tr.expr(SelfAttr().visit(ast.parse(ast.unparse(e), mode='eval').body))
+            x = subst(subst(subst(x, 'zalpha', ze), tag + '_se', ('var', 'se')), 'marginal_outcome', ('var', 'est'))
+            lims.append(emit(x, 'R'))
+        rtxt.append('Definition stmle_%s_se_R (v_variance v_n : R) : R :=\n  %s.\n'
+                    'Definition stmle_%s_ci_R (zq : R -> R) (v_alpha v_est v_se : R) : R * R :=\n  (%s, %s).'
+                    % (tag, emit(se, 'R'), tag, lims[0], lims[1]))
+    out.append(RawTargetR('stmle_ci', '\n'.join(rtxt)))
+    return out
+
+
 class RawTargetR(RawTarget):
     """ready-made Coq text over R"""
     def __init__(self, name, r_text):
@@ -1377,6 +1503,7 @@ GROUPS = {
     'slcoef': slcoef_targets,
     'xftmle': xftmle_targets,
     'basefit': basefit_targets,
+    'stmle': stmle_targets,
 }
 
 
@@ -1391,7 +1518,7 @@ def generate(groups=None):
         try:
             ts = fn()
             r = HEADER_R + '\n' + '\n\n'.join(t.coq() for t in ts) + '\n'
-            q = HEADER_Q + ('From Zepid Require Import Base.QSum Base.QAgg.\n' if g in ('pool', 'gfmarg', 'siptw', 'slcoef') else '') + ('From Zepid Require Import Base.QSum Base.QAgg Base.Rows Model.Estimators.\n' if g == 'xfvar' else '') + ('From Zepid Require Import Model.Gate.\n' if g == 'gate' else '') + ('From Coq Require Import ZArith.\nFrom Zepid Require Import Base.QSum Model.Frames.\n' if g == 'basefit' else '') + ('From Zepid Require Import Base.QSum Base.QAgg Base.Rows Model.Estimators Model.Variance.\n' if g == 'xftmle' else '') + ('From Zepid Require Import Base.QSum Base.QAgg Model.Generalize.\n' if g == 'gener' else '') + '\n' + '\n\n'.join(t.coq_q() for t in ts) + '\n'
+            q = HEADER_Q + ('From Zepid Require Import Base.QSum Base.QAgg.\n' if g in ('pool', 'gfmarg', 'siptw', 'slcoef') else '') + ('From Zepid Require Import Base.QSum Base.QAgg Base.Rows Model.Estimators.\n' if g == 'xfvar' else '') + ('From Zepid Require Import Model.Gate.\n' if g == 'gate' else '') + ('From Zepid Require Import Base.QSum Base.QAgg Base.Rows Model.Estimators Model.Variance.\n' if g == 'stmle' else '') + ('From Coq Require Import ZArith.\nFrom Zepid Require Import Base.QSum Model.Frames.\n' if g == 'basefit' else '') + ('From Zepid Require Import Base.QSum Base.QAgg Base.Rows Model.Estimators Model.Variance.\n' if g == 'xftmle' else '') + ('From Zepid Require Import Base.QSum Base.QAgg Model.Generalize.\n' if g == 'gener' else '') + '\n' + '\n\n'.join(t.coq_q() for t in ts) + '\n'
             side[g] = [t.sidecar() for t in ts]
             err = None
         except (TranslateError, SyntaxError, OSError) as e:
